@@ -25,6 +25,7 @@ func c14tail(max int) string { return c14ascii(vrt.Choose(max + 1)) }
 // that two texts can be forced to share it.
 type c14gen struct {
 	t    int   // bound on the length of relevant holes (sentinel digits, pc text)
+	extra bool // allow a second sentinel-looking line after the first
 	o    int   // exact length of every "other text" hole; -1: each 0..1 by fork
 	code []int // role choices made (for replaying the same roles in a second text)
 	rd   int
@@ -112,6 +113,14 @@ func (g *c14gen) frame() string {
 
 func (g *c14gen) text(frames int) string {
 	s := g.sentinelLine()
+	if g.extra && len(g.rel) > 0 && g.choose(2) == 1 {
+		// the first sentinel is a non-zero address (it is the address of a function)...
+		first := g.rel[0]
+		vrt.Assume(len(first) > 9 && first[9] >= '1' && (first[9] <= '9' || first[9] >= 'a' && first[9] <= 'f'))
+		// ...and more text that looks like a sentinel line follows before the goroutines
+		// (for instance inside a panic message): it is "other text" and must not matter
+		s += "sentinel " + c14tail(g.t) + "\n"
+	}
 	s += g.goroutineLine()
 	for i := 0; i < frames; i++ {
 		s += g.frame()
@@ -232,9 +241,9 @@ func c14hex(v uint64) string {
 func VC14_noninterference() {
 	t := vrt.Param("tail", 2)
 	frames := vrt.Param("frames", 1)
-	ga := &c14gen{t: t, o: vrt.Param("other_a", 1)}
+	ga := &c14gen{t: t, o: vrt.Param("other_a", 1), extra: true}
 	a := ga.text(frames)
-	gb := &c14gen{t: t, o: vrt.Param("other_b", 2), fix: ga.code}
+	gb := &c14gen{t: t, o: vrt.Param("other_b", 2), fix: ga.code, extra: true}
 	b := gb.text(frames)
 	vrt.Assume(len(ga.rel) == len(gb.rel))
 	for i := range ga.rel {
